@@ -43,13 +43,13 @@ SEQ = {
 # concurrent properties: workload kinds for the scheduler harness and the failure classes of
 # hist.check_run that count for the property
 SCHED = {
-    "C01": dict(kinds=["point", "split"], classes=["nullvalue", "linearizability", "status"]),
-    "C04": dict(kinds=["scan", "split"], classes=["nullvalue", "linearizability", "order", "status"]),
+    "C01": dict(kinds=["point", "split", "reuse"], classes=["nullvalue", "linearizability", "status"]),
+    "C04": dict(kinds=["scan", "split", "reuse"], classes=["nullvalue", "linearizability", "order", "status"]),
     "C06": dict(kinds=["nodeset", "scan"], classes=["nodeset"]),
     "C09": dict(kinds=["split", "point", "scan", "cursor"], classes=["progress", "structure", "lockorder"], trace=True),
     "C07": dict(kinds=["epoch"], classes=["epoch", "nullvalue", "ledger", "progress"], trace=True, runs_scale=0.4, monitor="epoch"),
     # concurrent clauses of properties whose sequential part is checked by the seq engine
-    "C10": dict(kinds=["cursor"], classes=["nullvalue", "linearizability", "order", "status"]),
+    "C10": dict(kinds=["cursor", "reuse"], classes=["nullvalue", "linearizability", "order", "status"]),
     "C08": dict(kinds=["split", "point"], classes=["structure", "ledger"]),
 }
 
@@ -300,7 +300,11 @@ def sched_run(prop, tier, seed, replay_path=None):
         kind, sd = job
         text, pre, meta = schedeng.make_workload(sd, kind)
         res = {"meta": meta, "text": text, "pre": pre, "nruns": 0, "steps": 0, "ops": 0, "fails": [], "acq": 0, "mon": {}}
-        rc, out, err2 = schedeng.run_workload(binary, text, runs, sd * 100, "sticky" if sd % 3 == 0 else "random", trace=bool(spec.get("trace")))
+        pol = ["random", "pct", "sticky", "pct"][sd % 4]
+        nruns = runs
+        if kind == "reuse":
+            pol, nruns = "pct", runs * 6      # a reader must be held back across two whole operations
+        rc, out, err2 = schedeng.run_workload(binary, text, nruns, sd * 100, pol, trace=bool(spec.get("trace")))
         rr = hist.parse(out)
         res["nruns"] = len(rr)
         for r in rr:
